@@ -143,6 +143,10 @@ macro "sameTV(" a:term "," b:term ")" : term =>
 @[simp] theorem decSendCount_tv (c : C) : sameTV(decSendCount c, c) := by
   unfold decSendCount; split <;> simp
 
+/-- `release_packet_id` (fix ba1a812): wait sets and the counter are no timer-related fields -/
+@[simp] theorem releasePacketId_tv (c : C) (id : Nat) : sameTV(releasePacketId c id, c) := by
+  rcases releasePacketId_eq c id with ⟨_, e⟩ | ⟨_, _, e⟩ | ⟨_, _, e⟩ <;> rw [e] <;> simp [dropWaits]
+
 @[simp] theorem storeAdd_tv (c : C) (id : Nat) (p : Pkt) (m : String) : sameTV(storeAdd c id p m, c) := by
   unfold storeAdd; split <;> simp
 
